@@ -56,7 +56,7 @@ def run(ctx):
         if not gs:
             continue
         g = gs[0]
-        roles = [("seqno-draw", R.call_blocks(fn, (R.SEQNO_NEXT,))),
+        roles = [("seqno-draw", R.seqno_draw_blocks(ctx, fn)),
                  ("append", R.call_blocks(fn, R.APPEND)),
                  ("persist", R.call_blocks(fn, (R.PERSIST,))),
                  ("apply", R.apply_blocks(fn)),
